@@ -132,3 +132,50 @@ def specialise(node, env, scope=None, depth=0):
                 continue
         return node
     raise Unknown("depth")
+
+
+def instance_text(node, env, scope=None, lens=None, depth=0):
+    """Text of the expression `node` denotes under env, with everything the fragment can decide decided: local names are
+    replaced by their reaching definition, conditional expressions by the selected branch, integer sub-expressions by their
+    value, and a negative constant index into a list of known length (lens: text -> length) by the equivalent non-negative one.
+    Two spellings of the same element (U[-1] / U[k-1] at k == len(U); get(stage, k_interval) / get(stage, k-1)) get the same text."""
+    lens = lens or {}
+    if depth > 25:
+        raise Unknown("depth")
+    try:
+        v = ceval(node, env, scope)
+        if isinstance(v, (int, bool)) and not isinstance(node, ast.Constant):
+            return repr(int(v)) if not isinstance(v, bool) else repr(v)
+    except Unknown:
+        pass
+    rec = lambda x: instance_text(x, env, scope, lens, depth + 1)
+    if isinstance(node, ast.IfExp):
+        try:
+            return rec(node.body if ceval(node.test, env, scope) else node.orelse)
+        except Unknown:
+            return "(%s if %s else %s)" % (rec(node.body), rec(node.test), rec(node.orelse))
+    if isinstance(node, ast.Name):
+        if scope is not None and node.id not in env:
+            v = scope.reaching(node.id, node)
+            if v is not None:
+                return rec(v)
+        return node.id
+    if isinstance(node, ast.Subscript):
+        base = rec(node.value)
+        idx = rec(node.slice)
+        if base in lens:
+            try:
+                i = int(idx)
+                if i < 0:
+                    idx = repr(i + lens[base])
+            except ValueError:
+                pass
+        return "%s[%s]" % (base, idx)
+    if isinstance(node, ast.Attribute):
+        return "%s.%s" % (rec(node.value), node.attr)
+    if isinstance(node, ast.Call):
+        parts = [rec(a) for a in node.args] + ["%s=%s" % (k.arg, rec(k.value)) for k in node.keywords]
+        return "%s(%s)" % (rec(node.func), ",".join(parts))
+    if isinstance(node, ast.Starred):
+        return "*" + rec(node.value)
+    return ast.unparse(node).replace(" ", "")
